@@ -119,6 +119,18 @@ def buildFolded (g : UGraph) (frontiers : List (List Nat)) : FoldCert :=
       else members.map fun m => (g.ins m).map fun i => (FoldCert.loc groups i).getD (0, 0)
     outIdx := g.outputs.map fun o => (FoldCert.loc groups o).getD (0, 0) }
 
+/-- Executable form of "the frontiers are a layer-wise topological ordering of the graph": they
+    partition the modules, every input of a module lies in an earlier frontier, modules with the
+    same fold key have the same arity, outputs are modules.  (Hypothesis of `C02.buildFolded_valid`;
+    the driver evaluates it on the ordering handed to the real `build_folded_graph`.) -/
+def layeredB (g : UGraph) (frs : List (List Nat)) : Bool :=
+  FoldCert.partitions g.n frs &&
+  (List.range frs.length).all (fun k => (frs.getD k []).all fun m =>
+    (g.ins m).all fun i => ((frs.take k).flatten).contains i) &&
+  (List.range g.n).all (fun m => (List.range g.n).all fun m' =>
+    g.key m != g.key m' || (g.ins m).length == (g.ins m').length) &&
+  g.outputs.all (· < g.n)
+
 /-! ### address book entries -/
 
 /-- first-occurrence de-duplication (`list(dict.fromkeys(...))`) -/
